@@ -7,11 +7,34 @@
 //@@ include prelude/consts.rs
 
 #[verifier::external_body]
-pub struct Vars { _p: u8 }
-impl Clone for Vars { #[verifier::external_body] fn clone(&self) -> (r: Self) ensures r == *self { unimplemented!() } }
-#[verifier::external_body]
 pub struct JsonValue { _p: u8 }
 impl Clone for JsonValue { #[verifier::external_body] fn clone(&self) -> (r: Self) ensures r == *self { unimplemented!() } }
+// model/vars.rs: Vars wraps serde_json::Map<String, Value>; ASSUMED map semantics of the operations used by the extracted code
+#[verifier::external_body]
+pub struct Vars { _p: u8 }
+impl Clone for Vars { #[verifier::external_body] fn clone(&self) -> (r: Self) ensures r == *self { unimplemented!() } }
+pub trait KeyLike: Sized { spec fn k(&self) -> Seq<char>; }
+impl<'a> KeyLike for &'a String { open spec fn k(&self) -> Seq<char> { (**self)@ } }
+impl<'a> KeyLike for &'a str { open spec fn k(&self) -> Seq<char> { (*self)@ } }
+impl<'a, 'b> KeyLike for &'a &'b String { open spec fn k(&self) -> Seq<char> { (***self)@ } }
+impl Vars {
+    pub uninterp spec fn view(&self) -> Map<Seq<char>, JsonValue>;
+    #[verifier::external_body]
+    pub fn new() -> (r: Self) ensures r@ == Map::<Seq<char>, JsonValue>::empty() { unimplemented!() }
+    #[verifier::external_body]
+    pub fn is_empty(&self) -> (r: bool) ensures r == (self@.dom().len() == 0) { unimplemented!() }
+    #[verifier::external_body]
+    pub fn contains_key<K: KeyLike>(&self, key: K) -> (r: bool) ensures r == self@.dom().contains(key.k()) { unimplemented!() }
+    #[verifier::external_body]
+    pub fn get_value<K: KeyLike>(&self, key: K) -> (r: Option<&JsonValue>)
+        ensures r is Some <==> self@.dom().contains(key.k()), r is Some ==> *r->Some_0 == self@[key.k()] { unimplemented!() }
+    #[verifier::external_body]
+    pub fn set<K: KeyLike>(&mut self, key: K, value: JsonValue) ensures final(self)@ == old(self)@.insert(key.k(), value) { unimplemented!() }
+    // R12: `for (ref key, _) in &vars` is lowered to iteration over the key vector
+    #[verifier::external_body]
+    pub fn keys_vec(&self) -> (r: Vec<String>)
+        ensures r@.map_values(|s: String| s@).to_set() == self@.dom(), r@.map_values(|s: String| s@).no_duplicates() { unimplemented!() }
+}
 
 // ---- the real model structs (serde attributes erased)
 //@@ extract file=acts/src/model/mod.rs item="enum ActEvent" name=ActEvent
@@ -58,6 +81,16 @@ impl Clone for Workflow { #[verifier::external_body] fn clone(&self) -> (r: Self
 //@@ opt dropderive=Clone
 //@@ end
 impl Clone for Error { #[verifier::external_body] fn clone(&self) -> (r: Self) ensures r == *self { unimplemented!() } }
+//@@ extract file=acts/src/event/mod.rs item="enum EventAction" name=EventAction
+//@@ opt structural
+//@@ end
+//@@ extract file=acts/src/event/action.rs item="struct Action" name=Action
+//@@ opt dropderive=Clone
+//@@ end
+impl Clone for Action { #[verifier::external_body] fn clone(&self) -> (r: Self) ensures r == *self { unimplemented!() } }
+//@@ extract file=acts/src/store/data/message.rs item="enum MessageStatus" name=MessageStatus
+//@@ opt structural
+//@@ end
 //@@ extract file=acts/src/scheduler/process/task/hook.rs item="enum TaskLifeCycle" name=TaskLifeCycle
 //@@ opt structural
 //@@ end
@@ -132,8 +165,9 @@ pub ghost struct Heap {
     pub hooks: Map<Tid, Map<TaskLifeCycle, Seq<StatementBatch>>>,   // lifecycle hooks per task
     pub task_events: Seq<(Tid, TaskState)>,   // Scheduler::emit_task_event(task) calls: (tid, state at the time)
     pub proc_events: Seq<TaskState>,     // Scheduler::emit_proc_event calls: process state at the time
-    pub msg_closed: Seq<(Seq<char>, Seq<char>)>,   // set_message_with(pid, tid, Completed) calls
+    pub msg_closed: Seq<(Seq<char>, Seq<char>, MessageStatus)>,   // Store::set_message_with(pid, tid, status) calls
     pub now: int,
+    pub action: Option<Action>,          // Context.action (RefCell): the client action being processed
     pub next_seq: nat,                   // ghost: creation index of the next task
 }
 pub const ROOT_TID: &'static str = "$";
@@ -302,6 +336,8 @@ impl Task {
         ensures
             r is Some <==> parent_tid(self.id@) is Some,
             r is Some ==> r->Some_0.id@ == parent_tid(self.id@)->Some_0 && wf_task(*h, *r->Some_0) && r->Some_0.node.level < self.node.level,
+            // the parent lies on the prev chain: it is the prev task or older
+            r is Some ==> h.tasks[self.id@].prev is Some && h.has(h.tasks[self.id@].prev->Some_0) && h.tasks[r->Some_0.id@].seq <= h.tasks[h.tasks[self.id@].prev->Some_0].seq,
     { unimplemented!() }
     // siblings = the parent's children except this task (task.rs: Task::siblings)
     #[verifier::external_body]
@@ -310,6 +346,9 @@ impl Task {
         ensures
             tasks_ok(*h, r@), tids(r@).no_duplicates(), !tids(r@).contains(self.id@),
             forall|i: int| 0 <= i < r@.len() ==> (#[trigger] r@[i]).id@ != self.id@,
+            // siblings hang off this task's parent (prev link), which is older than this task (creation order)
+            forall|i: int| 0 <= i < r@.len() ==> h.tasks[(#[trigger] r@[i]).id@].prev == parent_tid(self.id@),
+            parent_tid(self.id@) is Some ==> h.has(parent_tid(self.id@)->Some_0) && h.tasks[parent_tid(self.id@)->Some_0].seq < h.tasks[self.id@].seq,
             parent_tid(self.id@) is None ==> r@.len() == 0,
             parent_tid(self.id@) is Some ==> tids(r@).to_set() == children_of(*h, parent_tid(self.id@)->Some_0).remove(self.id@),
     { unimplemented!() }
@@ -528,7 +567,75 @@ impl Task {
         ensures r == (h.tasks[self.id@].flags.dom().contains(consts::IS_EVENT_PROCESSED@) && h.tasks[self.id@].flags[consts::IS_EVENT_PROCESSED@]),
     { unimplemented!() }
 }
+pub uninterp spec fn var_spec<T>(a: Option<Action>, name: Seq<char>) -> Option<T>;
+impl Default for Act { #[verifier::external_body] fn default() -> (r: Self) { unimplemented!() } }
+impl Error {
+//@@ extract file=acts/src/error.rs in="impl Error" item="fn new" name=Error::new props=C06
+//@@ opt noghost
+//@@ spec
+    ensures
+        //# E1-error-value
+        ret.message@ == message@ && ret.ecode@ == ecode@,
+//@@ end
+}
+#[verifier::external_body]
+pub struct CacheH { _p: u8 }
+#[verifier::external_body]
+pub struct StoreH { _p: u8 }
+impl Runtime { #[verifier::external_body] pub fn cache(&self) -> (r: &CacheH) { unimplemented!() } }
+impl CacheH { #[verifier::external_body] pub fn store(&self) -> (r: &StoreH) { unimplemented!() } }
+impl StoreH {
+    // cache/store.rs: set_message_with (proved in U-msg): every stored message of (pid, tid) gets the status
+    #[verifier::external_body]
+    pub fn set_message_with(&self, pid: &str, tid: &str, status: MessageStatus, Tracked(h): Tracked<&mut Heap>) -> (r: Result<bool>)
+        ensures *final(h) == (Heap { msg_closed: old(h).msg_closed.push((pid@, tid@, status)), ..*old(h) }), r is Ok,
+                fwd(*old(h), *final(h)), old(h).wf() ==> final(h).wf(), final(h).cur == old(h).cur,     // consequences
+    { unimplemented!() }
+}
+impl Process {
+    // process.rs: set_data writes into the root task's data (data only)
+    #[verifier::external_body]
+    pub fn set_data(&self, vars: &Vars, Tracked(h): Tracked<&mut Heap>)
+        ensures data_only(*old(h), *final(h)), fwd(*old(h), *final(h)), old(h).wf() ==> final(h).wf(), final(h).cur == old(h).cur,
+    { unimplemented!() }
+}
+impl Task {
+    // task.rs: backs walks the prev chain for the first task satisfying the predicate, collecting open tasks on the way (reads only)
+    #[verifier::external_body]
+    pub fn backs<F: Fn(&Arc<Task>) -> bool>(&self, predicate: &F, path: &mut Vec<Arc<Task>>, Tracked(h): Tracked<&Heap>) -> (r: Option<Arc<Task>>)
+        requires h.has(self.id@), forall|t: &Arc<Task>| #[trigger] predicate.requires((t,))
+        ensures tasks_ok(*h, final(path)@), r is Some ==> wf_task(*h, *r->Some_0) && predicate.ensures((&r->Some_0,), true) && r->Some_0.id@ != self.id@,
+    { unimplemented!() }
+    // R7: `self.backs(&|t| t.node.kind() == NodeKind::Step && t.node.id() == nid, &mut path)` -- backs with the step-by-id predicate
+    #[verifier::external_body]
+    pub fn backs_step(&self, nid: &String, path: &mut Vec<Arc<Task>>, Tracked(h): Tracked<&Heap>) -> (r: Option<Arc<Task>>)
+        requires h.has(self.id@)
+        ensures tasks_ok(*h, final(path)@), r is Some ==> wf_task(*h, *r->Some_0) && r->Some_0.node.s_kind() == NodeKind::Step && r->Some_0.node.id@ == nid@ && r->Some_0.id@ != self.id@,
+    { unimplemented!() }
+    // task.rs: create_context = Context::new(proc, task): a context whose current task is this task
+    #[verifier::external_body]
+    pub fn create_context(self: &Arc<Self>, Tracked(h): Tracked<&mut Heap>) -> (r: Context)
+        requires wf_task(*old(h), **self)
+        ensures *final(h) == (Heap { cur: self.id@, action: None, ..*old(h) }),
+                fwd(*old(h), *final(h)), old(h).wf() ==> final(h).wf(),     // consequences
+    { unimplemented!() }
+}
 impl Context {
+    #[verifier::external_body]
+    pub fn action(&self, Tracked(h): Tracked<&Heap>) -> (r: Option<Action>) ensures r == h.action { unimplemented!() }
+    // context.rs: set_action stores the action and copies its options into the context variables
+    #[verifier::external_body]
+    pub fn set_action(&self, action: &Action, Tracked(h): Tracked<&mut Heap>) -> (r: Result<()>)
+        ensures *final(h) == (Heap { action: Some(*action), ..*old(h) }), r is Ok,
+                fwd(*old(h), *final(h)), old(h).wf() ==> final(h).wf(), final(h).cur == old(h).cur,     // consequences
+    { unimplemented!() }
+    // context.rs: get_var reads a context variable (= an option of the current action)
+    #[verifier::external_body]
+    pub fn get_var<T>(&self, name: &str, Tracked(h): Tracked<&Heap>) -> (r: Option<T>) ensures r == var_spec::<T>(h.action, name@) { unimplemented!() }
+    // R7: `ctx.get_var::<T>(k).unwrap_or_default()`
+    #[verifier::external_body]
+    pub fn get_var_or_default<T>(&self, name: &str, Tracked(h): Tracked<&Heap>) -> (r: T)
+        ensures var_spec::<T>(h.action, name@) is Some ==> r == var_spec::<T>(h.action, name@)->Some_0 { unimplemented!() }
     // context.rs: prepare = init_vars: the task's inputs are written into its data (may evaluate input expressions: data only)
     #[verifier::external_body]
     pub fn prepare(&self, Tracked(h): Tracked<&mut Heap>)
